@@ -11,6 +11,97 @@ TRUSTED = ["the executable layout specification coq/ListOut.v (+ Printf.v, Glob.
 ASSUMPTIONS = ["TZ=UTC (localtime modelled by gmtime_utc)", "footer sums are size_t (mod 2^64)"]
 
 
+# ---------------------------------------------------------------- pinned layout (audit round 4)
+#
+# The reference rendering takes the column names and widths, the OS names and the month names from src/list.c on every
+# run (coq/Generated.v), so a change of those strings changes the reference with the tool.  They are part of "the fixed
+# column layout of the Unix LHA tool" (the repository's own listings contain 8 of the 20 OS names and 8 of the 12 months):
+# the rows of one archive with a member of every OS type and every month are compared with the text written out here.
+
+OS_NAMES = {0: "[generic]", ord('M'): "[MS-DOS]", ord('w'): "[Win9x]", ord('W'): "[WinNT]", ord('U'): "[Unix]", ord('2'): "[OS/2]",
+            ord('C'): "[CP/M]", ord('m'): "[Mac OS]", ord('J'): "[Java]", ord('F'): "[FLEX]", ord('R'): "[Runser]",
+            ord('T'): "[TownsOS]", ord('9'): "[OS-9]", ord('K'): "[OS-9/68K]", ord('3'): "[OS-386]", ord('H'): "[Human68K]",
+            ord('a'): "[Atari]", ord('A'): "[Amiga]", ord(' '): "[LHARK]"}
+MONTHS = ["Jan", "Feb", "Mar", "Apr", "May", "Jun", "Jul", "Aug", "Sep", "Oct", "Nov", "Dec"]
+HEADINGS = {
+    "l": [" PERMSSN    UID  GID      SIZE  RATIO     STAMP           NAME",
+          "---------- ----------- ------- ------ ------------ --------------------"],
+    "lv": [" PERMSSN    UID  GID      SIZE  RATIO     STAMP     LV",
+           "---------- ----------- ------- ------ ------------ ---"],
+    "v": [" PERMSSN    UID  GID    PACKED    SIZE  RATIO METHOD CRC     STAMP          NAME",
+          "---------- ----------- ------- ------- ------ ---------- ------------ -------------"],
+    "vv": [" PERMSSN    UID  GID    PACKED    SIZE  RATIO METHOD CRC     STAMP            LV",
+           "---------- ----------- ------- ------- ------ ---------- ------------------- ---"],
+}
+GOLD_NOW = 1500000000
+
+
+def golden_archive():
+    """256 empty members, OS byte k, stamped on the 15th of month k mod 12 of 1971 (k + 1 hours, k mod 60 minutes)"""
+    import calendar
+    ms, rows = b"", {"l": [], "v": [], "lv": [], "vv": []}
+    for k in range(256):
+        ts = calendar.timegm((1971, k % 12 + 1, 15, (k + 1) % 24, k % 60, k % 50))
+        lv = (2, 3, 1)[k % 3]
+        name = b"f%03d" % k
+        f = {"level": lv, "method": b"-lh0-", "clen": 0, "length": 0, "crc": k, "attr": 0x20, "os": k,
+             "time": ts if lv >= 2 else lb.dos_ftime(1999, 1, 1, 0, 0, 0), "exts": [(1, name)] + ([(0x54, struct.pack("<I", ts))] if lv == 1 else [])}
+        if lv == 1:
+            f["name"] = b""
+        ms += lb.build_header(f)
+        osn = OS_NAMES.get(k, "[unknown]")
+        stamp = "%s %2d  %04d" % (MONTHS[k % 12], 15, 1971)
+        full = "1971-%02d-15 %02d:%02d:%02d" % (k % 12 + 1, (k + 1) % 24, k % 60, k % 50)
+        rows["l"].append("%-10s %11s %7d %s %s %s" % (osn, "", 0, "100.0%", stamp, name.decode()))
+        rows["v"].append("%-10s %11s %7d %7d %s %s %04x %s %s" % (osn, "", 0, 0, "100.0%", "-lh0-", k, stamp, name.decode()))
+        rows["lv"].append(name.decode())
+        rows["lv"].append("%-10s %11s %7d %s %s [%d]" % (osn, "", 0, "100.0%", stamp, lv))
+        rows["vv"].append(name.decode())
+        rows["vv"].append("%-10s %11s %7d %7d %s %s %04x %s [%d]" % (osn, "", 0, 0, "100.0%", "-lh0-", k, full, lv))
+    return ms + b"\0", rows
+
+
+def pinned_layout(lha, tmp):
+    """[(mode, line number, observed, expected, archive)] where the tool's listing of the golden archive departs from the pinned text"""
+    arc, rows = golden_archive()
+    p = os.path.join(tmp, "gold.lzh")
+    open(p, "wb").write(arc)
+    os.utime(p, (GOLD_NOW - 10, GOLD_NOW - 10))
+    bad = []
+    n = 0
+    for mode in ("l", "lv", "v", "vv"):
+        rc, out, err = common.run_lha(lha, [mode, p], now=GOLD_NOW)
+        if common.abnormal(rc, err) or rc != 0:
+            bad.append((mode, 0, "rc=%d %s" % (rc, err[-200:].decode("latin1")), "exit status 0", arc))
+            continue
+        got = out.decode("latin1").split("\n")
+        exp = HEADINGS[mode] + rows[mode] + [HEADINGS[mode][1]]
+        n += len(exp)
+        for i, e in enumerate(exp):
+            g = got[i] if i < len(got) else "<missing>"
+            if g != e:
+                bad.append((mode, i + 1, g, e, arc))
+                break
+    os.unlink(p)
+    return bad, n
+
+
+TRAILING_STARS = [b"a**", b"**a**", b"*a**", b"a***", b"?**", b"a*?**", b"**", b"*.txt**", b"d/**", b"d/*a**", b"x?**", b"**?", b"a.t?t**"]
+OPTION_STRINGS = ["lq", "vq", "lvq", "lq1v", "lq2v", "lvq0", "vq0v", "vvq1", "-l", "-v", "-lv", "-vq2", "lf", "lfq1", "lvf", "vi", "lq0q2", "lq2q0"]
+
+
+def directed_archive(now):
+    """a few plain members whose names end where a pattern still has several '*' left"""
+    ms = b""
+    for i, (path, name) in enumerate([(None, b"a"), (None, b"xa"), (b"d\xff", b"a"), (b"d\xff", None), (None, b"abc"), (None, b"a.txt"), (None, b"x")]):
+        exts = ([(1, name)] if name else []) + ([(2, path)] if path else [])
+        data = b"x" * i
+        f = {"level": 2, "method": b"-lh0-" if name else b"-lhd-", "clen": len(data), "length": len(data) * 3, "time": now - 1000 * i, "attr": 0x20,
+             "os": ord('U'), "crc": i, "exts": exts}
+        ms += lb.build_header(f) + data
+    return ms + b"\0"
+
+
 def run(ctx):
     rnd = random.Random(ctx.seed * 32416190071 + 19)
     cb = CBuild(PID)
@@ -33,10 +124,23 @@ def run(ctx):
                 h = bytearray(lb.build_header(f))
                 ms += bytes(h)
             blobs.append(ms + b"\0")
+        # packed sizes that add up beyond 2^32 (the last member's recorded packed size is not backed by data)
+        for k in range(2):
+            ms = b""
+            for j, (cl, fake) in enumerate([(5, None), (7 + k, None), (0, 2 ** 32 - 1 - k)]):
+                f = {"level": 2, "method": b"-lh5-", "clen": cl if fake is None else fake, "length": 1000 + j, "time": now - 100, "attr": 0x20,
+                     "os": ord('M'), "crc": 0, "exts": [(1, b"pk%d" % j)]}
+                ms += lb.build_header(f) + b"z" * cl
+            blobs.append(ms)
         lits = rn.literals(blobs)
         for i, (b, ls) in enumerate(zip(blobs, lits)):
             mtime = rnd.choice([now - 5, now - 20000000, 1, 86400 * 365, now])
             items.append(("g%d" % i, b, now, mtime, tl.variants_for(rnd, ls, full=False)))
+        # patterns that still have several '*' left when the name ends; option strings other than <mode>[q<digit>]
+        da = directed_archive(now)
+        items.append(("stars", da, now, now - 5, [(m, "-", [p]) for m in ("l", "vv") for p in TRAILING_STARS]
+                      + [("v", rnd.choice(tl.QUIETS), rnd.sample(TRAILING_STARS, 2)) for _ in range(6)]))
+        items.append(("options", da, now, now - 5, [(o, "-", pl) for o in OPTION_STRINGS for pl in ([], [b"a*"])]))
         crashes, mm = [], []
         tl.compare_batch(rn, items, stats, mm, crashes)
         for c in crashes:
@@ -50,6 +154,12 @@ def run(ctx):
                          "observed": (m.get("c") if not isinstance(m.get("c"), bytes) else m["c"].decode("latin1"))[:1500] if m.get("c") is not None else None,
                          "expected": (m.get("model") if not isinstance(m.get("model"), bytes) else m["model"].decode("latin1"))[:1500] if m.get("model") is not None else None,
                          "sig": "layout:" + str(m.get("mode"))})
+        # the strings the reference takes from the source, against the text of the layout written out above
+        pbad, plines = pinned_layout(lha, tmp)
+        for mode, ln, g, e, arc in pbad:
+            viol.append({"property": PID, "kind": "list-output-differs-from-the-pinned-layout", "mode": mode, "line": ln, "observed": g, "expected": e,
+                         "now": GOLD_NOW, "mtime": GOLD_NOW - 10, "quiet": "-", "patterns": [], "archive_hex": arc.hex(),
+                         "what": "archive with one member per OS byte 0..255, stamped in every month of 1971", "sig": "pinned:" + mode})
         # ratio column against the tool's own float arithmetic
         rexe = cb.compile("drv_list_ratio", [os.path.join(common.CDIR, "drv_list_ratio.c"), os.path.join(common.REPO, "src", "safe.c"),
                                              os.path.join(common.REPO, "src", "filter.c")] + cb.lib_sources(), sanitize=True)
@@ -67,11 +177,15 @@ def run(ctx):
             nr += 1
             if c != m:
                 viol.append({"property": PID, "kind": "ratio-differs", "pair": list(p), "observed": c, "expected": m, "sig": "ratio"})
+        stats["cases"] += plines
         cov = {"evaluations": stats["cases"] + nr, "distinct_nontrivial": stats["cases"],
                "rule": "generated archives of 1-6 members (sizes to 2^32-1 incl. packed > original and original 0, every OS type, "
                        "permission words over their range, uid/gid 0-65535, stamps 0, 1, around now-6*30d +-1s, 2^31, 2^32-1, hostile "
                        "and long names, symlinks, directories, levels 0-3, totals beyond 2^32) x {l,lv,v,vv} x quiet {none,0,1,2} x "
-                       "pattern lists; stdout compared byte for byte with the extracted reference; %d ratio pairs against the tool's "
+                       "pattern lists (also patterns ending in several '*', option strings lq vq lq1v -l lf ..., packed totals beyond 2^32); "
+                       "stdout compared byte for byte with the extracted reference; headings, separators and the rows of an archive with "
+                       "one member per OS byte and month against the text of the layout pinned in p_C19.py (OS names, month names, "
+                       "column names and widths are otherwise read from src/list.c); %d ratio pairs against the tool's "
                        "own float code" % nr,
                "distribution": {k: v for k, v in stats.items() if k.startswith("mode_")},
                "samples": [items[0][1].hex()[:160], str(items[0][4][:2])[:200]]}
@@ -86,6 +200,13 @@ def replay(payload):
     cb = CBuild(PID)
     tmp = common.scratch_dir("c19r")
     try:
+        if payload.get("kind") == "list-output-differs-from-the-pinned-layout":
+            lha = common.build_lha(cb)
+            bad, _ = pinned_layout(lha, tmp)
+            for mode, ln, g, e, arc in bad:
+                print("lha %s, line %d:\n  observed %r\n  expected %r" % (mode, ln, g, e))
+            print("REPRODUCED" if bad else "not reproduced")
+            return 1 if bad else 0
         if payload.get("kind") != "list-output-differs-from-reference":
             print("replay by hand:", payload.get("kind"), payload.get("pair"))
             return 1
